@@ -10,6 +10,9 @@ use std::process::{Child, ChildStdin, ChildStdout, Command, Stdio};
 
 pub struct Pool {
     workers: Vec<(Child, ChildStdin, BufReader<ChildStdout>)>,
+    /// seconds without a result after which a worker counts as stalled and is killed
+    /// (None: TCSS_TASK_STALL_S or one hour)
+    pub stall_s: Option<u64>,
 }
 
 impl Pool {
@@ -30,7 +33,7 @@ impl Pool {
             writeln!(stdin, "{}", params).expect("write params");
             workers.push((ch, stdin, stdout));
         }
-        Pool { workers }
+        Pool { workers, stall_s: None }
     }
 
     pub fn size(&self) -> usize {
@@ -50,14 +53,15 @@ impl Pool {
         // deadlocks inside the worker's single-threaded runtime, say) is killed, which ends its
         // reader with "worker process ended"; the check then fails as a machinery error instead
         // of hanging
-        let stall_s: u64 = std::env::var("TCSS_TASK_STALL_S").ok().and_then(|s| s.parse().ok()).unwrap_or(3600);
+        let stall_s: u64 = self.stall_s.unwrap_or_else(|| std::env::var("TCSS_TASK_STALL_S").ok().and_then(|s| s.parse().ok()).unwrap_or(3600));
+        let killed: Vec<std::sync::atomic::AtomicBool> = (0..n).map(|_| std::sync::atomic::AtomicBool::new(false)).collect();
         let pids: Vec<u32> = self.workers.iter().map(|w| w.0.id()).collect();
         let now = || std::time::SystemTime::now().duration_since(std::time::UNIX_EPOCH).map(|d| d.as_secs()).unwrap_or(0);
         let progress: Vec<std::sync::atomic::AtomicU64> = (0..n).map(|_| std::sync::atomic::AtomicU64::new(now())).collect();
         let busy: Vec<std::sync::atomic::AtomicBool> = per.iter().map(|p| std::sync::atomic::AtomicBool::new(!p.is_empty())).collect();
         let all_done = std::sync::atomic::AtomicBool::new(false);
         std::thread::scope(|sc| {
-            let (progress, busy, all_done) = (&progress, &busy, &all_done);
+            let (progress, busy, all_done, killed) = (&progress, &busy, &all_done, &killed);
             sc.spawn(move || {
                 use std::sync::atomic::Ordering::SeqCst;
                 while !all_done.load(SeqCst) {
@@ -66,6 +70,7 @@ impl Pool {
                     for (w, pid) in pids.iter().enumerate() {
                         if busy[w].load(SeqCst) && t.saturating_sub(progress[w].load(SeqCst)) > stall_s {
                             eprintln!("MACHINERY-ERROR: worker {pid} produced no result for {stall_s} s: killed");
+                            killed[w].store(true, SeqCst);
                             unsafe {
                                 libc::kill(*pid as i32, libc::SIGKILL);
                             }
@@ -92,7 +97,11 @@ impl Pool {
                             let mut line = String::new();
                             match stdout.read_line(&mut line) {
                                 Ok(0) | Err(_) => {
-                                    out.push((k, Err("worker process ended unexpectedly".into())));
+                                    if killed[wi].load(std::sync::atomic::Ordering::SeqCst) {
+                                        out.push((k, Err(format!("worker stalled: no result for {stall_s} s (killed)"))));
+                                    } else {
+                                        out.push((k, Err("worker process ended unexpectedly".into())));
+                                    }
                                 }
                                 Ok(_) => match serde_json::from_str::<Value>(&line) {
                                     Ok(v) => out.push((k, Ok(v))),
